@@ -7,8 +7,8 @@ from ..interp_prop import InterpProp
 
 class C13(InterpProp):
     id = 'C13'
-    quick_cases = 200
-    thorough_cases = 5000
+    quick_cases = 800
+    thorough_cases = 30000
     n_ops = 40
     rule = ('random charts whose guards are mostly single after(d)/idle(d) predicates with thresholds around the exact '
             'boundary, internal transitions, self-loops, re-entries, actions storing `time` × histories with clock moves '
